@@ -30,7 +30,18 @@ impl EmmyLuaEmitter {
     /// Write a doc comment line: `--- text`.
     pub fn write_doc_comment(&mut self, text: &str) {
         for line in comment_lines(text) {
-            let _ = writeln!(self.output, "--- {}", line);
+            // `---`, white space, `@` starts a tag, and so does `---@` (or `--- @`) after the comment
+            // start or after further `--` / `//` comment starts: a description whose first character
+            // other than white space, `-` and `/` is `@` gets a backslash in front
+            let is_tag_start = line
+                .trim_start_matches([' ', '\t', '\r', '\n', '-', '/'])
+                .starts_with('@');
+            let _ = writeln!(
+                self.output,
+                "--- {}{}",
+                if is_tag_start { "\\" } else { "" },
+                line
+            );
         }
     }
 
@@ -149,6 +160,9 @@ pub fn type_name(prefix: &str, name: &str) -> String {
     if !result.starts_with(|ch: char| ch.is_alphabetic() || ch == '_') {
         result.insert(0, '_');
     }
+    if TYPE_KEYWORDS.contains(&result.as_str()) {
+        result.push('_');
+    }
     result
 }
 
@@ -181,9 +195,17 @@ fn one_line(text: &str) -> String {
     comment_lines(text).collect::<Vec<_>>().join(" ")
 }
 
+/// Words `---@field` reads as a modifier of the field instead of its name.
+const FIELD_MODIFIERS: &[&str] = &["private", "protected", "public", "package", "readonly"];
+
+/// Words that are not a type name on their own.
+const TYPE_KEYWORDS: &[&str] = &[
+    "fun", "async", "true", "false", "keyof", "extends", "as", "in", "and", "or", "else",
+];
+
 /// Check if a field name needs bracket notation (contains special characters).
 fn needs_bracket_notation(name: &str) -> bool {
-    if name.is_empty() {
+    if name.is_empty() || FIELD_MODIFIERS.contains(&name) {
         return true;
     }
     // Must start with letter or underscore
